@@ -6,7 +6,7 @@ ws=/tmp/ws/run_${seed}_$prop
 rm -rf $ws; git -C /repo worktree prune; git -C /repo worktree add -q --detach $ws HEAD || exit 2
 (cd $ws && git apply /verif/seeded/$seed/patch.diff) || { echo "patch does not apply"; exit 2; }
 vd=/tmp/seedrun/v_${seed}_$prop; rm -rf $vd; mkdir -p $vd; ln -s /verif/harness $vd/harness; cp /verif/known_findings.json $vd/
-SYMGO_REPO=$ws VERIF_DIR=$vd ${SYMGO_BIN:-/tmp/symgo5} check $prop quick "$@" > /tmp/seedrun/${seed}_$prop.log 2>&1
+SYMGO_REPO=$ws VERIF_DIR=$vd ${SYMGO_BIN:-/verif/bin/symgo} check $prop quick "$@" > /tmp/seedrun/${seed}_$prop.log 2>&1
 rc=$?
 git -C /repo worktree remove --force $ws
 echo "seed=$seed prop=$prop exit=$rc"
